@@ -828,7 +828,7 @@ pub fn run(a: &Args) -> i32 {
     let mut case = 0u64;
 
     // A
-    let nseq: u64 = if miri { 60 } else if quick { 60_000 } else { 1_200_000 };
+    let nseq: u64 = if miri { 60 } else if quick { 60_000 } else { 600_000 };
     for i in 0..nseq {
         let big = if miri {
             300
@@ -839,7 +839,7 @@ pub fn run(a: &Args) -> i32 {
         } else {
             2_000
         };
-        stage_serde(&mut ctx, &mut rng, case, if miri { 24 } else { 300 }, big, !quick || i % 4 == 0);
+        stage_serde(&mut ctx, &mut rng, case, if miri { 24 } else { 300 }, big, if quick { i % 4 == 0 } else { i % 2 == 0 });
         case += 1;
     }
     // the widest row the u16 column count can describe
@@ -872,7 +872,7 @@ pub fn run(a: &Args) -> i32 {
 
     // B
     // every spill does two sync_all(): ~30 ms per spiller on this machine
-    let nps: u64 = if miri { 6 } else if quick { 300 } else { 5_000 };
+    let nps: u64 = if miri { 6 } else if quick { 300 } else { 2_000 };
     for _ in 0..nps {
         stage_partition(&mut ctx, &mut rng, case, &scratch, files);
         case += 1;
